@@ -716,6 +716,9 @@ impl ser::SerializeMap for MapSerializer<'_> {
     {
         let mut se = Serializer::new();
         let key = key.serialize(&mut se)?;
+        // Use a fresh serializer for the value so that state set while serializing the key
+        // (eg. array / symbol markers) does not leak into the value
+        let mut se = Serializer::new();
         let value = value.serialize(&mut se)?;
         self.map.insert(key, value);
         Ok(())
